@@ -37,6 +37,7 @@ static struct Ctl {
     std::vector<CEv> trace;
     int calls = 0, crash_at = -1;            // crash immediately before simulated call number crash_at (1-based); n+1 = after the last
     int wcalls = 0, fault_nth = -1, fault_err = 0; bool fault_short = false; bool fault_fired = false;
+    bool fault_sticky = false;                  // the condition stays (a full disk stays full): every write-type call from fault_nth on fails
     bool active = false;
     jmp_buf jb; int exit_code = 0;
     int tmp_counter = 0;
@@ -51,7 +52,7 @@ static void tick(const char *kind, const std::string &s) {
 }
 static bool wfault(int &err, bool &shortw) {   // write-type call: does the planned fault hit it?
     int n = C.wcalls++;
-    if (n == C.fault_nth) { C.fault_fired = true; err = C.fault_err; shortw = C.fault_short; return true; }
+    if (n == C.fault_nth || (C.fault_sticky && C.fault_nth >= 0 && n > C.fault_nth)) { C.fault_fired = true; err = C.fault_err; shortw = C.fault_short; return true; }
     return false;
 }
 static std::string dir_of(const std::string &p) { size_t k = p.rfind('/'); return k == std::string::npos ? "." : k == 0 ? "/" : p.substr(0, k); }
@@ -218,8 +219,10 @@ void __wrap_exit(int code) { if (C.active) { C.exit_code = code; longjmp(C.jb, J
 
 // ------------------------------------------------------------------ one simulated snoopyctl process
 struct ActOut { bool crashed = false; int exit_code = 0; std::string out, err; int calls = 0; std::vector<CEv> trace; bool fault_fired = false; int wcalls = 0; };
+static bool g_next_sticky = false;
 static ActOut run_action(const std::string &action, int crash_at, int fault_nth, int fault_err, bool fault_short) {
     ActOut o;
+    C.fault_sticky = g_next_sticky && fault_nth >= 0; g_next_sticky = false;
     C.fds.clear(); C.trace.clear(); C.calls = 0; C.crash_at = crash_at; C.wcalls = 0; C.fault_nth = fault_nth; C.fault_err = fault_err; C.fault_short = fault_short; C.fault_fired = false; C.exit_code = 0;
     char *ob = nullptr, *eb = nullptr; size_t on = 0, en = 0;
     FILE *so = stdout, *se = stderr;
@@ -297,17 +300,17 @@ static std::vector<std::string> tokens_of(const std::string &line) {   // loader
 // ------------------------------------------------------------------ plans
 struct CtlPlan {
     std::string property; uint64_t seed = 0; bool exists = true; std::string initial; std::vector<std::string> ops;
-    int crash_at = -1; int fault_nth = -1, fault_err = 0; bool fault_short = false; J extra = J::obj();
+    int crash_at = -1; int fault_nth = -1, fault_err = 0; bool fault_short = false, fault_sticky = false; J extra = J::obj();
     J to_json() const {
         J j = J::obj(); j.set("property", property); j.set("seed", (unsigned long long)seed); j.set("engine", "ctl"); j.set("variant", "ctl");
         if (exists) j.set("initial", initial); else j.set("initial", J());
         j.set("plan", jstrs(ops)); j.set("crash_at", crash_at);
-        J f = J::obj(); f.set("nth", fault_nth); f.set("err", fault_err); f.set("short", fault_short); j.set("fault", f); j.set("extra", extra);
+        J f = J::obj(); f.set("nth", fault_nth); f.set("err", fault_err); f.set("short", fault_short); if (fault_sticky) f.set("sticky", true); j.set("fault", f); j.set("extra", extra);
         return j;
     }
     void from_json(const J &j) {
         property = j.gets("property"); seed = (uint64_t)j.geti("seed"); const J *i = j.find("initial"); exists = i && !i->is_null(); initial = exists ? i->s : "";
-        ops = jstrs(j.at("plan")); crash_at = (int)j.geti("crash_at", -1); const J &f = j.at("fault"); fault_nth = (int)f.geti("nth", -1); fault_err = (int)f.geti("err"); fault_short = f.getb("short");
+        ops = jstrs(j.at("plan")); crash_at = (int)j.geti("crash_at", -1); const J &f = j.at("fault"); fault_nth = (int)f.geti("nth", -1); fault_err = (int)f.geti("err"); fault_short = f.getb("short"); fault_sticky = f.getb("sticky");
         extra = j.has("extra") ? j.at("extra") : J::obj();
     }
 };
@@ -354,8 +357,9 @@ static CtlPlan gen_plan(const std::string &prop, uint64_t seed, const std::strin
         if (prop == "C19" && p.extra.getb("exhaustive") && (idx % 2)) p.ops = {"enable", "disable"};
         return p;
     }
-    // C20: families of 64 seeds = (initial content, operation): slot 0 census, slots 1..n+1 crash before call k, then write-type faults
-    uint64_t fam = seed / 64; int slot = (int)(seed % 64);
+    // C20: families of 256 seeds = (initial content, operation): slot 0 census, slots 1..n+1 crash before call k, then single write-type faults,
+    // persistent faults, and one fault followed by a kill
+    uint64_t fam = seed / 256; int slot = (int)(seed % 256);
     Rng r(fam * 1000003 + 120);
     static const char *inits[] = {"", "/lib/foreign.so\n", "/lib/foreign.so", "# comment\n/lib/a.so /lib/b.so\n", LIBPATH "\n", "/lib/a.so\n" LIBPATH "\n/lib/z.so\n", LIBPATH " # c\n/lib/q.so\n", "/lib/a.so\n" LIBPATH};
     int which = (int)(fam % 20);
@@ -379,8 +383,16 @@ static CtlPlan gen_plan(const std::string &prop, uint64_t seed, const std::strin
     else if (slot <= n + 1) { p.crash_at = slot; p.extra.set("mode", "crash"); }
     else {
         int k = slot - (n + 2); static const int errs[] = {ENOSPC, EIO, EDQUOT, 0};
-        if (w == 0 || k >= w * 4) { p.extra.set("mode", "idle"); return p; }
-        p.fault_nth = k / 4; p.fault_err = errs[k % 4]; p.fault_short = (k % 4) == 3; p.extra.set("mode", "fault");
+        if (w == 0) { p.extra.set("mode", "idle"); return p; }
+        if (k < w * 4) { p.fault_nth = k / 4; p.fault_err = errs[k % 4]; p.fault_short = (k % 4) == 3; p.extra.set("mode", "fault"); return p; }
+        k -= w * 4;
+        // the condition persists: from write-type call j on, every write-type call fails (a full disk stays full, a dead device stays dead)
+        if (k < w * 3) { p.fault_nth = k / 3; p.fault_err = errs[k % 3]; p.fault_sticky = true; p.extra.set("mode", "sticky-fault"); return p; }
+        k -= w * 3;
+        // one failing write-type call and then a kill: error paths are code too, and they are killed before each of their calls
+        int span = n + 12;
+        if (k < w * span) { p.fault_nth = k / span; p.fault_err = ENOSPC; p.crash_at = k % span + 1; p.extra.set("mode", "fault-then-crash"); return p; }
+        p.extra.set("mode", "idle");
     }
     return p;
 }
@@ -458,6 +470,7 @@ static RunRes run_plan(const CtlPlan &p) {
     for (size_t i = 0; i < p.ops.size(); i++) {
         const std::string &op = p.ops[i];
         bool last = i + 1 == p.ops.size();
+        g_next_sticky = last && p.fault_sticky;
         ActOut o = run_action(op, last ? p.crash_at : -1, last ? p.fault_nth : -1, p.fault_err, p.fault_short);
         bool ex1 = C.files.count(PRELOAD) != 0; std::string now = ex1 ? C.files[PRELOAD].content : "";
         for (auto &e : o.trace) h = fnv(e.k + "|" + e.s + "|" + std::to_string(e.ret) + "|" + std::to_string(e.err) + ";", h);
@@ -475,13 +488,15 @@ static RunRes run_plan(const CtlPlan &p) {
                 std::string full = C.files.count(PRELOAD) ? C.files[PRELOAD].content : ""; bool fex = C.files.count(PRELOAD) != 0;
                 ok_new = ex1 == fex && now == full;
             }
-            R.sig = p.ops[0] + "|" + std::to_string(fnv(orig) % 9973) + "|" + p.extra.gets("mode") + "|" + std::to_string(p.crash_at) + "|" + std::to_string(p.fault_nth) + ":" + std::to_string(p.fault_err) + (p.fault_short ? "s" : "");
+            R.sig = p.ops[0] + "|" + std::to_string(fnv(orig) % 9973) + "|" + p.extra.gets("mode") + "|" + std::to_string(p.crash_at) + "|" + std::to_string(p.fault_nth) + ":" + std::to_string(p.fault_err) + (p.fault_short ? "s" : "") + (p.fault_sticky ? "*" : "");
             R.nontrivial = o.crashed || o.fault_fired || p.extra.gets("mode") == "census";
             if (o.crashed) R.probes.set("p_crash_fired", true);
             if (o.fault_fired) R.probes.set(p.fault_short ? "p_short_write" : p.fault_err == ENOSPC ? "p_enospc" : "p_write_error", true);
+            if (o.fault_fired && p.fault_sticky) R.probes.set("p_sticky_fault", true);
+            if (o.fault_fired && o.crashed) R.probes.set("p_fault_then_crash", true);
             if (p.extra.gets("mode") == "census") { R.probes.set("p_census", true); R.probes.set("census_calls", p.extra.geti("census_calls")); }
             if (!is_old && !ok_new) {
-                std::string what = o.crashed ? "killed before simulated call #" + std::to_string(p.crash_at) + " of " + std::to_string(p.extra.geti("census_calls")) + " (" + p.extra.gets("census_trace") + ")" : o.fault_fired ? "write-type call #" + std::to_string(p.fault_nth) + (p.fault_short ? " short" : " failing with errno " + std::to_string(p.fault_err)) : "no fault";
+                std::string what = (o.crashed && o.fault_fired) ? "write-type call #" + std::to_string(p.fault_nth) + " failing with errno " + std::to_string(p.fault_err) + ", then killed before simulated call #" + std::to_string(p.crash_at) : o.crashed ? "killed before simulated call #" + std::to_string(p.crash_at) + " of " + std::to_string(p.extra.geti("census_calls")) + " (" + p.extra.gets("census_trace") + ")" : o.fault_fired ? "write-type call #" + std::to_string(p.fault_nth) + (p.fault_short ? " short" : " failing with errno " + std::to_string(p.fault_err)) + (p.fault_sticky ? " and every later one too" : "") : "no fault";
                 std::string cls = !ex1 ? "file-missing" : now.empty() ? "file-empty" : (now.size() < cur0.size() && cur0.compare(0, now.size(), now) == 0) ? "file-truncated" : "file-mixed";
                 R.v = V(std::string(o.crashed ? "crash:" : "fault:") + cls, op + " on " + showf(ex0, cur0) + ", " + what + ": the preload file holds " + showf(ex1, now) + ", neither the previous nor the complete new content");
                 return R;
